@@ -5,6 +5,7 @@ from __future__ import annotations
 import ast
 
 from .. import own
+from ..util import expand_names
 from ..model import AnalysisError, dotted, norm_src, own_nodes
 from ..rules import xyz
 from ..util import const_int
@@ -151,7 +152,9 @@ def cat(ctx, col):
                   "junction nodes are merged iff they coincide (distance between the two junction nodes below the tolerance)",
                   tsrc, f"merge test `{tsrc}` does not compare the distance between the two junction nodes with the tolerance",
                   stmt="merge-test")
-    elif not any(isinstance(x, ast.Call) and (dotted(x.func) or "").endswith(("norm", "allclose", "isclose", "distance")) for x in ast.walk(t)):
+    elif not any(isinstance(x, ast.Call) and (dotted(x.func) or "").endswith(("norm", "allclose", "isclose", "distance", "array_equal", "hypot", "dist"))
+                 or isinstance(x, ast.Attribute) and x.attr in ("xyz", "x", "y", "z")
+                 for e_ in expand_names(d, t) for x in ast.walk(e_)):
         col.bad("R-SENT", q, d.loc(mi), "junction nodes are merged iff they coincide (distance between the two junction nodes below the tolerance)",
                 f"the merge / link decision is `{tsrc}`, which does not look at the positions of the two junction nodes: "
                 f"coincident junctions are duplicated (or distinct ones merged)", stmt="merge-test", definite=True)
